@@ -16,7 +16,7 @@ from .. import engine, common
 
 ID = "C03"
 
-DEPS = ["impl", "wimpl", "gi", "gil", "gw", "vg", "vi", "conc", "vconc", "nodeps"]   # gil: like gi, but `D` is declared LAST (after const parameters)
+DEPS = ["impl", "pimpl", "wimpl", "gi", "gil", "gw", "gh", "vg", "vi", "conc", "vconc", "nodeps"]   # pimpl: `(&impl Dep)` in parentheses; gh: where-predicate with a `for<>` binder on the dependency parameter; gil: like gi, but `D` is declared LAST (after const parameters)
 QUALS = ["", "async", "unsafe", 'extern "C"', 'unsafe extern "C"', "async unsafe"]
 OPTS = ["", "mock", "mockall", "?Send"]
 # extra parameter symbols: (declaration, generic params, where predicates, argument expr, pointer type, needs)
@@ -55,10 +55,29 @@ RETS = {
     "rde": dict(ty="-> &i64", body="deps.num()", out="&i64", ptr="&'a i64", from_deps=True, elided=True),
     "rdn": dict(ty="-> &'a i64", body="deps.num()", out="&i64", ptr="&'a i64", from_deps=True, named_a=True),
     "rb": dict(ty="-> &'b X", body="r", out="&X", ptr="&'b X", needs="rn"),
+    # borrowed from the (only) reference argument, lifetime elided: possible without a borrowed dependency (no_deps, by-value deps)
+    "rae": dict(ty="-> &X", body="r", out="&X", ptr="&'b X", needs="re", arg_elided=True),
     "t": dict(ty="-> T", body="t", out="i64", ptr="i64", needs="ti"),
     "res": dict(ty="-> Result<i64, String>", body="Ok(1)", out="Result<i64, String>", ptr="Result<i64, String>"),
     "opt": dict(ty="-> Option<&'a i64>", body="Some(deps.num())", out="Option<&i64>", ptr="Option<&'a i64>", from_deps=True, named_a=True),
     "imp": dict(ty="-> impl ::core::fmt::Debug", body="1i64", out=None, ptr=None),
+}
+
+
+ANYD = "&impl ::core::any::Any"
+# type / const parameters that only the BODY mentions: the caller names them on the trait, the delegating call has to pass them on
+SPECIAL = {
+    "body_const_gen": ("#[::entrait::entrait(pub Tr)] pub fn f<D: ::core::any::Any, const N: usize>(deps: &D) -> usize { N }",
+                       ['let app = ::entrait::Impl::new(());', 'rt::out("d", f::<_, 3>(&app)); rt::out("t", Tr::<3>::f(&app));'], "3"),
+    "body_type_impl": ("#[::entrait::entrait(pub Tr)] pub fn f<U: Default + ::core::fmt::Display>(deps: %s, a: i64) -> String { format!(\"{}{}\", U::default(), a) }" % ANYD,
+                       ['let app = ::entrait::Impl::new(());', 'rt::out("d", f::<u8>(&app, 1)); rt::out("t", Tr::<u8>::f(&app, 1));'], "01"),
+    "body_const_conc_async": ("pub struct Cfg; #[::entrait::entrait(pub Tr)] pub async fn f<const N: usize>(deps: &Cfg, a: impl Into<i64> + Send) -> i64 { a.into() + N as i64 }",
+                              ['let app = ::entrait::Impl::new(Cfg);', 'rt::out("d", rt::block_on(f::<3>(&Cfg, 1i32))); rt::out("t", rt::block_on(Tr::<3>::f(&app, 1i32)));'], "4"),
+    "body_type_mod": ("#[::entrait::entrait(pub Tr)] pub mod m { pub fn f<U: Default + ::core::fmt::Display>(deps: %s, a: i64) -> String { format!(\"{}{}\", U::default(), a) } "
+                      "pub fn g<U: Default + ::core::fmt::Display>(deps: %s) -> i64 { 2 } }" % (ANYD, ANYD),
+                      ['let app = ::entrait::Impl::new(());', 'rt::out("d", m::f::<u8>(&app, 1)); rt::out("t", Tr::<u8>::f(&app, 1));'], "01"),
+    "body_type_nodeps": ("#[::entrait::entrait(pub Tr, no_deps)] pub fn f<U: Default + ::core::fmt::Display, const N: usize>(a: i64) -> String { format!(\"{}{}{}\", U::default(), N, a) }",
+                         ['let app = ::entrait::Impl::new(());', 'rt::out("d", f::<u8, 7>(1)); rt::out("t", Tr::<u8, 7>::f(&app, 1));'], "071"),
 }
 
 
@@ -81,8 +100,12 @@ def enumerate_states(tier):
             continue            # the same symbol twice (or two symbols sharing `r` / `'b`) would declare a name twice
         if R.get("elided") and any(EXTRA[x].get("ref") for x in w):
             continue            # elided output with two reference inputs is not Rust
+        if R.get("arg_elided") and (deps not in ("nodeps", "vg", "vi", "vconc") or len([x for x in w if EXTRA[x].get("ref")]) != 1):
+            continue
         if o == "?Send" and "async" not in q:
             continue
+        if tier != "thorough" and deps in ("pimpl", "gh") and (w or o != ""):
+            continue            # parentheses around the dependency type: with every qualifier and return kind
         if tier != "thorough" and deps == "gil" and not set(w) <= {"cn", "ti", "i"}:
             continue            # the declaration position of D only interacts with the other generic parameters
         if o == "mock" and not feature:
@@ -97,9 +120,14 @@ def enumerate_states(tier):
         # the same function as one of two functions of an entraited module (generic analysis is shared between the functions there)
         if deps not in ("conc", "vconc") and (tier == "thorough" or (o in ("", "?Send") and not feature)):
             states.append(dict(key=key.replace("g_", "gm_", 1), deps=deps, word=list(w), qual=q, ret=r, opt=o, feature=feature, cont="mod"))
+            # .. and stamped out by macro_rules with the dependency TYPE passed as a `$d:ty` fragment (it arrives in an invisible group)
+            if deps in ("impl", "vi", "gi", "vg") and not R.get("named_a") and (tier == "thorough" or (not w and o == "" and not feature)):
+                states.append(dict(key=key.replace("g_", "gy_", 1), deps=deps, word=list(w), qual=q, ret=r, opt=o, feature=feature, cont="stampty"))
             # .. and next to a twin with the very same signature, generic parameter names included
-            if any(EXTRA[x].get("gen") for x in w) or deps in ("gi", "gil", "gw", "vg"):
+            if any(EXTRA[x].get("gen") for x in w) or deps in ("gi", "gil", "gw", "gh", "vg"):
                 states.append(dict(key=key.replace("g_", "gt_", 1), deps=deps, word=list(w), qual=q, ret=r, opt=o, feature=feature, cont="twin"))
+    for name in SPECIAL:
+        states.append(dict(key="gs_" + name, special=name, deps="special", word=[], qual="", ret="special", opt="", feature=False))
     return states, len(states), dict(deps=DEPS, extra_params=list(EXTRA), word_len=maxlen, quals=QUALS, returns=list(RETS), options=OPTS)
 
 
@@ -112,6 +140,8 @@ def pieces(s):
     la = "'a " if named_a else ""
     if deps == "impl":
         dparam = "deps: &%simpl Dep" % la
+    elif deps == "pimpl":
+        dparam = "deps: (&%simpl Dep)" % la
     elif deps == "wimpl":
         dparam = "_: &impl Dep"        # the dependency is not used: wildcard pattern in the deps position
     elif deps == "gi":
@@ -122,6 +152,10 @@ def pieces(s):
     elif deps == "gw":
         gens.append("D")
         where.append("D: Dep")
+        dparam = "deps: &%sD" % la
+    elif deps == "gh":
+        gens.append("D")
+        where.append("for<'h> D: Dep + Lab<'h>")
         dparam = "deps: &%sD" % la
     elif deps == "vg":
         gens.append("D: Dep + ::core::marker::Send")
@@ -146,6 +180,10 @@ def pieces(s):
 
 
 def render(s):
+    if s.get("special"):
+        items, client, exp = SPECIAL[s["special"]]
+        L = ["mod %s {" % s["key"], "    use super::rt;", "    " + items, "    pub fn client() {"] + ["        " + c for c in client] + ["    }", "}"]
+        return engine.Unit(s["key"], "\n".join(L), 'rt::run("%s", %s::client);' % (s["key"], s["key"]), s)
     key, deps, w, q, R = s["key"], s["deps"], s["word"], s["qual"], RETS[s["ret"]]
     P = pieces(s)
     asy = "async" in q
@@ -155,7 +193,7 @@ def render(s):
     L = ["mod %s {" % key, "    use super::rt;",
          "    #[derive(Debug)] pub struct X(pub i64);", "    pub fn fpid(x: i64) -> i64 { x }", "    pub fn xnum(x: &X) -> i64 { x.0 }",
          "    pub trait Bound { fn b(&self) -> i64; } impl Bound for i64 { fn b(&self) -> i64 { *self } }",
-         "    pub trait Lab<'l> {} impl<'l> Lab<'l> for i64 {} impl<'l, 'z> Lab<'l> for &'z i64 {}",
+         "    pub trait Lab<'l> {} impl<'l> Lab<'l> for i64 {} impl<'l, 'z> Lab<'l> for &'z i64 {} impl<'l> Lab<'l> for ::entrait::Impl<App> {}",
          "    pub trait Dep { fn num(&self) -> &i64; }",
          "    pub struct App { pub num: i64 }",
          "    impl Dep for App { fn num(&self) -> &i64 { &self.num } }",
@@ -171,7 +209,14 @@ def render(s):
             L.append("    pub %s fn sibling%s(%s) %s%s { %s }" % (q, g, ", ".join(P["params"]), R["ty"], wh, body))
         else:
             L.append("    pub fn sibling(%s) -> i64 { 0 }" % ("" if deps == "nodeps" else "deps: &impl Dep"))
-    L.append("    pub %s fn f%s(%s) %s%s { %s }" % (q, g, ", ".join(P["params"]), R["ty"], wh, body))
+    if s.get("cont") == "stampty":
+        dty = P["params"][0].split(": ", 1)[1]
+        L.insert(len(L) - 1, "    macro_rules! mk { ($d:ty) => {")
+        L.append("    pub %s fn f%s(%s) %s%s { %s }" % (q, g, ", ".join(["deps: $d"] + P["params"][1:]), R["ty"], wh, body))
+        L.append("    } }")
+        L.append("    mk!(%s);" % dty)
+    else:
+        L.append("    pub %s fn f%s(%s) %s%s { %s }" % (q, g, ", ".join(P["params"]), R["ty"], wh, body))
     if inmod:
         L.append("    }")
     fpath = "m::f" if inmod else "f"
@@ -196,7 +241,7 @@ def render(s):
     L.append("        let x = X(2); let mut mm = 5i64;")
     for name, path, is_trait in (("d", fpath, False), ("t", "Tr::f", True)):
         recv_ref = mkapp if byval else "&app"
-        if RETS[s["ret"]].get("needs") == "rn":
+        if RETS[s["ret"]].get("needs") in ("rn", "re"):
             # the result borrows from the argument: the dependency may die first
             L.append("        let %s = { let app = %s; format!(\"{:?}\", %s) };" % (name, mkapp, call(path, recv_ref, is_trait)))
             L.append("        let _w_%s: &X = { let app = %s; %s };" % (name, mkapp, call(path, recv_ref, is_trait)))
@@ -230,7 +275,9 @@ def render(s):
 
 
 def model(s):
-    v = {"unit": "()", "i64": "1", "rde": "7", "rdn": "7", "rb": "X(2)", "t": "3", "res": "Ok(1)", "opt": "Some(7)", "imp": "1"}[s["ret"]]
+    if s.get("special"):
+        return dict(compiles=True, d=SPECIAL[s["special"]][2], t=SPECIAL[s["special"]][2])
+    v = {"unit": "()", "i64": "1", "rde": "7", "rdn": "7", "rb": "X(2)", "rae": "X(2)", "t": "3", "res": "Ok(1)", "opt": "Some(7)", "imp": "1"}[s["ret"]]
     return dict(compiles=True, d=v, t=v)
 
 
